@@ -582,6 +582,10 @@ class Exec:
                     return
                 base = st.env[f.value.id]
                 args = [self.eval(a, st) for a in node.value.args]
+                if isinstance(base, tuple) and base and base[0] == "sset" and f.attr == "add" and len(args) == 1:
+                    st.env[f.value.id] = ("sset", tuple(base[1]) + (args[0],))
+                    yield ("fall", st, None)
+                    return
                 if f.attr in ("append", "reverse", "extend", "pop", "insert", "remove", "sort", "clear", "update"):
                     self.check_unaliased(f.value.id, st, node)
                 new = self.mutating_method(base, f.attr, args, st, node)
@@ -1201,8 +1205,11 @@ class Exec:
                     return None
                 vals.append(t.as_long())
             return [I(i) for i in range(*vals)]
-        is_map = isinstance(it, ast.Call) and isinstance(it.func, ast.Name) and it.func.id == "map" and "map" not in st.env
-        if is_map or isinstance(it, (ast.Name, ast.Attribute, ast.Subscript, ast.Tuple, ast.List)):
+        is_map = isinstance(it, ast.Call) and ((isinstance(it.func, ast.Name) and it.func.id == "map" and "map" not in st.env)
+                                               or self.dotted(it.func) in ("toolz.partition", "partition"))
+        is_model = isinstance(it, ast.Call) and isinstance(it.func, ast.Attribute) and not it.args and \
+            f".{it.func.attr}" in {"." + k.split(".")[-1] for k in (getattr(self.c.cls, "methods", None) or {})}
+        if is_map or is_model or isinstance(it, (ast.Name, ast.Attribute, ast.Subscript, ast.Tuple, ast.List)):
             try:
                 v = self.eval(it, st)
             except Unsupported:
@@ -1746,6 +1753,8 @@ class Exec:
                 t = z3.Select(b.has, S.as_int(self.need_int(a, st, node)))
             elif isinstance(b, TupV):
                 t = z3.Or(*[self.equal(a, x, st, node) for x in b.items]) if b.items else z3.BoolVal(False)
+            elif isinstance(b, tuple) and b and b[0] == "sset":
+                t = z3.Or(*[self.equal(a, x, st, node) for x in b[1]]) if b[1] else z3.BoolVal(False)
             else:
                 raise Unsupported(f"'in' on {b!r} line {node.lineno}")
             return t if isinstance(op, ast.In) else z3.Not(t)
